@@ -722,7 +722,10 @@ def run(ck: core.Check):
         "CPython dict / list semantics as modelled in Rpft/Dict.lean (exercised by the tie on every case)",
         "nesting depth bounded by fuel 40 in the driver (generated nesting ≤ 4); cyclic indexes not generated",
     ]
-    ck.partial_gap = []
+    ck.partial_gap = [
+        "last_wins_data_full (data-sheet registry along an index history) is stated but not proved; the data-operation level is C11.chain_untouched / registered_persists, and the tie compares the registered data sheets on every case",
+        "last_wins_* / flow_rows_spec are stated for flat histories (runFlat); process_filter_active, nested_inline and flat_process reduce any history to a flat one step by step, the composed normal-form theorem is not stated",
+    ]
     if not core.DRIVER_BIN.exists():
         raise core.Infra("driver not built:\n" + ck.lean.log[-2000:])
     import rpft.parsers.creation.contentindexparser  # noqa: F401
